@@ -84,6 +84,14 @@ def table_nrows(table):
     return len(ix["cells"])
 
 
+def _lab(name, int_labels):
+    """column label as built: with int_labels a name made of digits stands for the integer label (the JSON case and
+    the reference model keep the string)"""
+    if int_labels and isinstance(name, str) and name.isdigit():
+        return int(name)
+    return name
+
+
 def pandas_frame(table):
     import pandas as pd
 
@@ -93,7 +101,7 @@ def pandas_frame(table):
     if not series:
         return pd.DataFrame(index=index)
     df = pd.concat(series, axis=1)
-    df.columns = [c["name"] for c in table["columns"]]
+    df.columns = [_lab(c["name"], table.get("int_labels")) for c in table["columns"]]
     return df
 
 
@@ -270,7 +278,12 @@ def pandas_schema(spec):
             name=col.get("name") if spec.get("series_named", True) else None, default=_default(col), **kw)
     if kind == "column":
         return pandas_column(spec["columns"][0], with_name=True)
-    columns = {c["name"]: pandas_column(c) for c in spec["columns"]}
+    il = spec.get("int_labels")
+    columns = {_lab(c["name"], il and not c.get("regex")): pandas_column(c) for c in spec["columns"]}
+    if il and spec.get("unique"):
+        uq = spec["unique"]
+        spec = dict(spec, unique=[_lab(x, il) for x in uq] if all(isinstance(x, str) for x in uq)
+                    else [[_lab(x, il) for x in g] for g in uq])
     return pa.DataFrameSchema(
         columns, checks=[build_check(c, None) for c in spec.get("checks", [])],
         index=pandas_index_component(spec.get("index")),
